@@ -1,6 +1,46 @@
-From Coq Require Import List.
-From PG Require Import Graph.MGraph C08.Model.
-(* placeholder until the proofs land *)
-Theorem c08_placeholder : forall g, V (meek_model g) = V (meek_model g).
-Proof. reflexivity. Qed.
-Print Assumptions c08_placeholder.
+(* C08 — Meek rule closure is sound and complete on patterns.  Statements: C08/Spec.v; model: C08/Model.v. *)
+From Coq Require Import List Arith Bool.
+From PG Require Import Base.ListSet Graph.MGraph C08.Model C08.Spec C08.Proofs C08.Bounded_n4 C08.Refuted C08.Acyclic.
+Import ListNotations.
+
+(* unbounded: the closure only turns undirected edges into directed ones (nodes, skeleton, directed edges kept) *)
+Theorem meek_only_orients : forall p, only_orients p (meek_model p).
+Proof. exact meek_only_orients_proof. Qed.
+Print Assumptions meek_only_orients.
+
+(* unbounded: with fuel |U|+1 the loop ends on a graph on which none of the four rules fires *)
+Theorem meek_terminates : forall p, rule_closed (meek_model p).
+Proof. exact meek_terminates_proof. Qed.
+Print Assumptions meek_terminates.
+
+(* unbounded: every consistent DAG extension of the input is one of the closure ... *)
+Theorem meek_extensions_preserved : forall p d, simple_pdag p -> consistent_ext p d -> consistent_ext (meek_model p) d.
+Proof. exact meek_ext_preserved. Qed.
+Print Assumptions meek_extensions_preserved.
+
+(* ... hence every orientation made holds in every consistent extension *)
+Theorem meek_sound : forall p, simple_pdag p -> sound_for p (meek_model p).
+Proof. exact meek_sound_proof. Qed.
+Print Assumptions meek_sound.
+
+(* bounded: on the pattern of every DAG with <= 4 nodes the closure is the essential graph (brute-force Markov class) *)
+Theorem meek_complete_on_patterns_bounded_4 :
+  forall n d, n <= 4 -> In d (all_dags n) -> pdag_eqb (meek_model (pattern_of d)) (essential_graph d) = true.
+Proof. exact meek_complete_on_patterns_bounded_4_proof. Qed.
+Print Assumptions meek_complete_on_patterns_bounded_4.
+
+(* refuted for the rules as coded before the repair (ancestors in place of parents) *)
+Theorem meek_sound_code_refuted :
+  exists p d i j,
+    is_ext p d = true /\ In d (candidates p) /\ has_u p i j = true /\
+    r1_code p i j = true /\ has_d d i j = false /\ has_d d j i = true /\
+    fires p i j = false /\ has_u (meek_model p) i j = true.
+Proof. exact meek_sound_code_refuted_proof. Qed.
+Print Assumptions meek_sound_code_refuted.
+
+(* the same refutation against the Prop-level spec: a simple PDAG p with a consistent extension d (Spec.consistent_ext) on which
+   the coded rule 1 orients i -> j although d has j -> i.  (Also shows the hypotheses of meek_sound are satisfiable.) *)
+Theorem meek_sound_code_refuted_spec :
+  exists p d i j, simple_pdag p /\ consistent_ext p d /\ has_u p i j = true /\ r1_code p i j = true /\ ~ In (i, j) (D d).
+Proof. exact meek_sound_code_refuted_spec_proof. Qed.
+Print Assumptions meek_sound_code_refuted_spec.
